@@ -1,4 +1,5 @@
 """C02 — shaping any accepted font with any text is safe, terminating and bounded (DESIGN.md §6; partial)."""
+import json
 import os
 import re
 import shutil
@@ -76,6 +77,14 @@ def run(ctx):
             p.write_bytes(data)
             fonts.append(str(p))
             return len(fonts) - 1
+        # (a2) past failures first: fonts (with their texts) on which an earlier tree crashed, kept under /verif/corpus/e2e
+        for cf in sorted((lib.ROOT / "corpus" / "e2e").glob("*.json")):
+            c = json.loads(cf.read_text())
+            fi = add_font(bytes.fromhex(c["font_hex"]))
+            for t in c["texts"]:
+                for d in c.get("dirs", [0, 1]):
+                    lines.append("F0=%d,0,f;S0=0,-1,-1,0,32,%d,-1,%s;R0;D0;d0;X0;L0" % (fi, d, "".join("%08x" % x for x in t) or "-"))
+                    meta.append(("corpus:" + cf.stem, None))
         # (b) synthesised fonts, both directions, all direction flags, three encodings, hostile texts
         for _ in range(100 if q else 3000):
             data, desc = fontsynth.gen_font(r)
